@@ -202,9 +202,9 @@ def nested_braceless_items(rng, quick):
                 (f'if ({cs(A)}) {{ {Xs} }} else if ({cs(B)}) say "y"; else {{ say "z"; say "z"; }}',
                  [("if", [(A, [X]), (B, [Y])], [Z, Z])]),
             ]
-            for src, tree in shapes:
+            for si, (src, tree) in enumerate(shapes):
                 items.append(dict(prog=tree + [("say", "after")], cert=(ci + xi) % 2, stream="nested-braceless",
-                                  src=f'function f() {{\n    {src}\n    say "after";\n}}\n'))
+                                  src=f'function f() {{\n    {src}\n    say "after";\n}}\n', dangling_else=si in (0, 2)))
     return items
 
 
@@ -576,8 +576,7 @@ def main(tier: str) -> int:
         branch_histogram=st["tags"], streams=st["streams"],
         braceless_bodies=sum(G.count_braceless(it["prog"]) for it in items),
         return_programs=sum(1 for it in items if it.get("ret")), declaration_programs=sum(1 for it in items if it.get("decl")),
-        known_return_in_branch=st["known_return_in_branch"],
-        known_pending_chain_before_declaration=st["known_pending_chain_before_declaration"],
+        known_return_in_branch=st["known_return_in_branch"], dangling_else_refused=st["dangling_else_refused"],
         search="every case: emitted functions run in mcvm from every 0/1 assignment of the variables read (<=48 states, sampled beyond; "
                "thorough: also unset), say-trace and final user scores compared with the JavaScript meaning",
         not_modelled="Minecraft's maxCommandChainLength / recursion limits",
